@@ -136,6 +136,15 @@ def send_segmented(c, data, mode, rng):
             prev = ct
             if rng.random() < 0.5:
                 time.sleep(rng.random() * 0.002)
+    elif mode == "half-close":
+        # write everything, then close the sending direction at once (nc -N, batch clients that
+        # write all and read to EOF): the FIN is queued right behind the request bytes
+        c.send_raw(data)
+        import socket as _socket
+        try:
+            c.sock.shutdown(_socket.SHUT_WR)
+        except OSError:
+            pass
     elif isinstance(mode, int):
         c.send_raw(data[:mode])
         time.sleep(0.0003)
@@ -187,7 +196,10 @@ def run_pipeline(srv, rng, res, cmds, mode, m, modelcheck=True):
         c.close()
         return False
     # nothing may follow the last reply
-    extra = c.try_recv(0.0)
+    try:
+        extra = c.try_recv(0.0)
+    except Closed:
+        extra = NOTHING          # the server closed after the last reply (half-closed client): nothing followed
     if extra is not NOTHING or c.buf:
         res.violation("count/extra-reply/%s" % modename, "more replies than requests: extra %s / %r" % (resp.show(extra), bytes(c.buf[:80])))
         c.close()
@@ -370,6 +382,35 @@ def directed(srv, res, rng):
             res.violation("order/behind-blocking-pop/served", "[%s bq 0, SET flag, %s bq 0, ECHO] in one write, two pushes by another client -> %s; flag existed "
                           "before the first push: %r, after it: %r (expected [[bq,v1], OK, [bq,v2], 'after-serve'], 0, 1)" % (
                               pop.decode(), pop.decode(), resp.show(got), early, mid))
+    # several clients whose multi-key blocking pops time out in the same event-loop pass: one nil each, no more
+    for stalled in (False, True, True):
+        ws = [srv.client(timeout=5) for _ in range(3)]
+        st = srv.client(timeout=5)
+        for w in ws:
+            w.send_raw(resp.encode([b"BLPOP", b"tq:high", b"tq:low", b"0.1"]))
+        if stalled:
+            st.cmd("SLEEP", "250")           # the deadlines pass while the command thread is busy
+        outs = []
+        for w in ws:
+            got = []
+            try:
+                got.append(w.recv())
+                w.send_raw(resp.encode([b"ECHO", b"after-timeout"]))
+                got.append(w.recv())
+                extra = w.try_recv(0.05)
+                if extra is not NOTHING:
+                    got.append(extra)
+            except (Timeout, Closed, resp.ProtocolError) as e:
+                got.append(type(e).__name__)
+            outs.append(got)
+            w.close()
+        st.close()
+        res.evaluations += 6
+        res.cell("directed", "multi-key-timeouts-same-pass", "stalled" if stalled else "free")
+        if any(g != [resp.NULL_ARRAY, b"after-timeout"] for g in outs):
+            res.violation("count/multi-key-timeout", "3 clients in BLPOP tq:high tq:low 0.1 (%s): each then sent ECHO; replies per client %s, expected [nil, 'after-timeout'] each" % (
+                "deadlines passed during a 250 ms stall" if stalled else "free running", resp.show(outs)))
+            break
     # slow reader: the client stops reading while the replies pile up
     c = srv.client(timeout=60)
     big = b"v" * 10240
@@ -427,11 +468,15 @@ def worker(wseed, binary, budget_s, idx):
             ctl.cmd("FLUSHALL")
             m = Model()
             size = rng.choice([1, 2, 5, 20, 20, 100, 100, 500])
-            mode = rng.choice(["whole", "whole", "random-cuts", "random-cuts", "crlf-cuts", "bytewise"])
+            mode = rng.choice(["whole", "whole", "random-cuts", "random-cuts", "crlf-cuts", "bytewise", "half-close"])
             if mode == "bytewise" and size > 100:
                 size = 20
             pure = rng.random() < 0.4
             cmds = build_pipeline(rng, m, size, pure)
+            if mode == "half-close":
+                # a client that closes its sending side while it is blocked counts as gone (C13): what it
+                # is owed then is not stated, so blocking pops stay out of the half-close pipelines
+                cmds = [[b"PING"] if (a and a[0].upper() in (b"BLPOP", b"BRPOP")) else a for a in cmds]
             okk = run_pipeline(srv, rng, res, cmds, mode, Model(), modelcheck=pure)
             res.cell("pipeline-kind", "pure-model-checked" if pure else "mixed")
             if n <= 2:
